@@ -119,7 +119,10 @@ func c20(tier string) []*explore.Scenario {
 			if native && chain != 1 {
 				continue
 			}
-			out = append(out, c20Chain(chain, native))
+			out = append(out, c20Chain(chain, native, false))
+			if chain >= 1 {
+				out = append(out, c20Chain(chain, native, true))
+			}
 		}
 	}
 	for nsh := 1; nsh <= 3; nsh++ {
@@ -132,10 +135,20 @@ func c20(tier string) []*explore.Scenario {
 // c20Chain: n chained server interceptors (native: installed with
 // UnaryInterceptor/StreamInterceptor instead of the Chain options), a client
 // interceptor, all 4 kinds x {ok, error}.
-func c20Chain(n int, native bool) *explore.Scenario {
+// fresh: every interceptor hands a NEW request object (and a wrapped
+// ServerStream with a new context) down the chain and returns a NEW reply
+// object, instead of mutating the one it was given.
+type c20WrapSS struct {
+	grpc.ServerStream
+	ctx context.Context
+}
+
+func (w *c20WrapSS) Context() context.Context { return w.ctx }
+
+func c20Chain(n int, native, fresh bool) *explore.Scenario {
 	fam := "C20/chain"
 	return &explore.Scenario{
-		Name: fmt.Sprintf("C20/chain/n=%d/native=%v", n, native), Family: fam, Prop: "C20", Bound: 0,
+		Name: fmt.Sprintf("C20/chain/n=%d/native=%v/fresh=%v", n, native, fresh), Family: fam, Prop: "C20", Bound: 0,
 		Run: func() {
 			lg := &c20Log{}
 			var uis []grpc.UnaryServerInterceptor
@@ -148,18 +161,31 @@ func c20Chain(n int, native bool) *explore.Scenario {
 					md = md.Copy()
 					md.Append("seen", fmt.Sprint(i))
 					m := req.(*env.Msg)
-					m.Value = append(m.Value, []byte(fmt.Sprintf("+q%d", i))...)
+					if fresh {
+						m = &env.Msg{Value: append(append([]byte{}, m.Value...), []byte(fmt.Sprintf("+q%d", i))...)}
+					} else {
+						m.Value = append(m.Value, []byte(fmt.Sprintf("+q%d", i))...)
+					}
 					resp, err := h(metadata.NewIncomingContext(ctx, md), m)
 					lg.add("u%d<", i)
 					if err != nil {
 						return resp, status.Errorf(status.Code(err), "%s+e%d", status.Convert(err).Message(), i)
 					}
 					rm := resp.(*env.Msg)
+					if fresh {
+						return &env.Msg{Value: append(append([]byte{}, rm.Value...), []byte(fmt.Sprintf("+r%d", i))...)}, nil
+					}
 					rm.Value = append(rm.Value, []byte(fmt.Sprintf("+r%d", i))...)
 					return rm, nil
 				})
 				sis = append(sis, func(srv any, ss grpc.ServerStream, info *grpc.StreamServerInfo, h grpc.StreamHandler) error {
 					lg.add("s%d>", i)
+					if fresh {
+						md, _ := metadata.FromIncomingContext(ss.Context())
+						md = md.Copy()
+						md.Append("seen", fmt.Sprint(i))
+						ss = &c20WrapSS{ServerStream: ss, ctx: metadata.NewIncomingContext(ss.Context(), md)}
+					}
 					err := h(srv, ss)
 					lg.add("s%d<", i)
 					if err != nil {
@@ -221,6 +247,9 @@ func c20Chain(n int, native bool) *explore.Scenario {
 							lg.add("H")
 							md, _ := metadata.FromIncomingContext(ss.Context())
 							lg.add("cli=%v", md.Get("from-client-interceptor"))
+							if fresh {
+								lg.add("seen=%v", md.Get("seen"))
+							}
 							for {
 								m := new(env.Msg)
 								if err := ss.RecvMsg(m); err != nil {
@@ -265,6 +294,13 @@ func c20Chain(n int, native bool) *explore.Scenario {
 						want += fmt.Sprintf("seen=%v cli=[yes] req=%s ", seen, req)
 					} else {
 						want += "cli=[yes] "
+						if fresh {
+							var seen []string
+							for i := 0; i < m; i++ {
+								seen = append(seen, fmt.Sprint(i))
+							}
+							want += fmt.Sprintf("seen=%v ", seen)
+						}
 					}
 					for i := m - 1; i >= 0; i-- {
 						want += fmt.Sprintf("%s%d< ", pfx, i)
